@@ -37,7 +37,12 @@ let () =
         Printf.printf "witness shutdown final=%s some_thread_enabled=%s gone=%d\n" (b2s (sh_final s)) (b2s en) (int_of_nat (sh_gone s));
         let r = run (sh_step true) sh_witness sh_init in
         let r2 = run (sh_step true) sh_finishing r in
-        Printf.printf "witness shutdown_repaired finishes=%s gone=%d\n" (b2s (sh_final r2)) (int_of_nat (sh_gone r2))
+        Printf.printf "witness shutdown_repaired finishes=%s gone=%d\n" (b2s (sh_final r2)) (int_of_nat (sh_gone r2));
+        let j = run (sj_step false) sj_witness sj_init in
+        Printf.printf "witness shutdown_join freed=%s uaf=%s\n" (b2s (sj_freed j)) (b2s (sj_uaf j))
+    | "sj" :: rep :: ws ->
+        let s = run (sj_step (rep = "1")) (sched_of ws) sj_init in
+        Printf.printf "sj final=%s freed=%s uaf=%s\n" (b2s (sj_final s)) (b2s (sj_freed s)) (b2s (sj_uaf s))
     | "sh" :: rep :: ws ->
         let f = sh_step (rep = "1") in
         let s = run f (sched_of ws) sh_init in
